@@ -40,7 +40,7 @@ def group_findings(repo: Repo, res: CheckResult, prop: str, ci, meth: str, role:
         return 0
     lens = {len(v) for v in per_mode.values()}
     if len(lens) != 1:
-        raise AnalysisError(f"{ci.name}.{meth}: modes hand out different numbers of closures {ids}")
+        return unaligned_group(repo, res, prop, ci, role, strict, eng, per_mode)
     n = 0
     for i in range(lens.pop()):
         sigs = {dt: signature_of(repo, eng, per_mode[dt][i]) for dt in DT}
@@ -60,6 +60,34 @@ def group_findings(repo: Repo, res: CheckResult, prop: str, ci, meth: str, role:
                     f"acceptance signature ({'; '.join(d)}): the same datum is accepted or rejected (or rejected with "
                     f"another error class) depending on the debug mode", fv.fn.lineno))
     return n
+
+
+def unaligned_group(repo: Repo, res: CheckResult, prop: str, ci, role: str, strict: bool, eng: Esc, per_mode) -> int:
+    """The modes hand out different numbers of closures (one mode has a specialised variant the others lack). The
+    variants are grouped by the non-mode branch decisions of the entry method under which they are handed out; inside a
+    group every variant of a mode must have a counterpart with an equal acceptance signature in the sibling mode."""
+    tag = f"{ci.name}:{role}:{'strict' if strict else 'lax'}"
+    groups: Dict[Tuple, Dict[str, List]] = {}
+    for dt in DT:
+        for fv in per_mode[dt]:
+            groups.setdefault(fv.entry_conds, {d: [] for d in DT})[dt].append((fv, signature_of(repo, eng, fv)))
+    res.evaluated(f"sib:{tag}:unaligned", True)
+    for conds, g in groups.items():
+        where = " and ".join(("" if taken else "not ") + f"({t})" for t, taken in conds) or "always"
+        for other in ("DISABLE", "ALL"):
+            for a, b in (("FIRST", other), (other, "FIRST")):
+                for fv, sg in g[b]:
+                    ds = [diff(x, sg) if a == "FIRST" else diff(sg, x) for _, x in g[a]]
+                    if not ds or all(ds):
+                        best = min(ds, key=len) if ds else [f"debug_trail={a} hands out nothing on that path"]
+                        res.add(Finding(
+                            prop, "SIB.mode-disagreement", fv.module.rel, tag,
+                            f"{sg.name} has no counterpart in {a}: " + "; ".join(best),
+                            f"on the dispatch path [{where}] debug_trail={b} can hand out the {ci.name} {role} variant "
+                            f"`{sg.name}` whose acceptance signature equals that of no debug_trail={a} variant handed out "
+                            f"on the same path (closest differs by: {'; '.join(best)}): the same datum is accepted, rejected "
+                            f"or answered differently depending on the debug mode", fv.fn.lineno))
+    return 1
 
 
 def run(repo: Repo, tier: str, res: CheckResult, seed: int = 0) -> None:
